@@ -134,6 +134,21 @@ def main():
             if a.only and a.only not in tg.name:
                 continue
             tr = explore(world, tg)
+            # clauses the engine added by itself (tag `auto`: a local or a ghost counter taken as stable after a peeled
+            # first loop pass) are decided at once; a refuted one is withdrawn and the target explored again without it
+            for _ in range(3):
+                autos = [ob for ob in tr.obligations if 'auto' in (ob.tags or ()) and ob.kind == 'prove']
+                if not autos:
+                    break
+                bad = [r for r in solve_all(autos, world.const_axioms(), timeout_ms=5000, seed=seed) if r.status != 'discharged']
+                if not bad:
+                    break
+                for r in bad:
+                    nm = r.name.split(':inv-preserved/auto:')
+                    if len(nm) == 2:
+                        world.disabled_auto.add((nm[0], nm[1].split('-', 1)[0]))
+                        world.disabled_auto_ghosts.add((nm[0], nm[1].split('-', 1)[0]))
+                tr = explore(world, tg)
             n_paths += tr.paths
             gen_seconds += tr.seconds
             functions.update(tg.functions)
@@ -163,7 +178,7 @@ def main():
     def relevant(r):
         if tags is None:
             return True
-        return (not r.tags) or any(t in tags for t in r.tags)
+        return (not r.tags) or 'auto' in r.tags or any(t in tags for t in r.tags)
 
     results = [r for r in results if relevant(r)]
     proves = [r for r in results if r.kind == 'prove']
